@@ -30,8 +30,19 @@ impl Drop for Zst {
         DESTROYED.with(|c| c.set(c.get() + 1));
     }
 }
+thread_local! {
+    /// planned clone panic: the k-th `Zst::clone` from now unwinds (0 = none planned)
+    static CLONE_BOMB: Cell<u64> = const { Cell::new(0) };
+}
 impl Clone for Zst {
     fn clone(&self) -> Zst {
+        let k = CLONE_BOMB.with(|c| c.get());
+        if k > 0 {
+            CLONE_BOMB.with(|c| c.set(k - 1));
+            if k == 1 {
+                std::panic::resume_unwind(Box::new(crate::elem::Injected(crate::elem::FaultKind::Clone)));
+            }
+        }
         Zst::new()
     }
 }
@@ -112,6 +123,9 @@ struct ZEx<const N: usize> {
     cur_op: Op,
     allocs: u32,
     panicked: bool,
+    /// a clone panic is planned for this step / has fired in it
+    bomb: bool,
+    user_faulted: bool,
     /// elements leaked by a forgotten drain (allowed by C10)
     leaked: u64,
 }
@@ -131,6 +145,8 @@ fn run_n<const N: usize>(script: &Script, keep: bool) -> Outcome {
         cur_op: Op::New,
         allocs: 0,
         panicked: false,
+        bomb: false,
+        user_faulted: false,
         leaked: 0,
     };
     for (i, st) in script.steps.iter().enumerate() {
@@ -199,7 +215,12 @@ impl<const N: usize> ZEx<N> {
                 }
             }
             Err(PanicKind::Injected(_)) => {
-                self.fail(cls::HARNESS, "injected fault in zst scenario".into());
+                if self.bomb {
+                    self.user_faulted = true;
+                    self.stats.fault_fired[crate::elem::FaultKind::Clone as usize] += 1;
+                } else {
+                    self.fail(cls::HARNESS, "injected fault in zst scenario".into());
+                }
                 None
             }
             Err(PanicKind::Other(m)) => {
@@ -235,6 +256,12 @@ impl<const N: usize> ZEx<N> {
         self.cur_op = st.op;
         self.allocs = 0;
         self.panicked = false;
+        self.user_faulted = false;
+        self.bomb = matches!(st.op, Op::ExtendFromSlice | Op::CloneTo | Op::CloneFrom | Op::ToVec) && st.b > 0;
+        CLONE_BOMB.with(|c| c.set(if self.bomb { st.b as u64 } else { 0 }));
+        if self.bomb {
+            self.stats.fault_configured[crate::elem::FaultKind::Clone as usize] += 1;
+        }
         self.stats.steps += 1;
         let x = (st.buf & 1) as usize;
         let y = 1 - x;
@@ -332,6 +359,9 @@ impl<const N: usize> ZEx<N> {
                     };
                     if ok {
                         self.len[x] = if N - len >= k { len + k } else { N };
+                    } else if self.user_faulted {
+                        // a clone panicked: whatever was written so far is owned by the buffer
+                        self.len[x] = b.len();
                     }
                 }
                 Op::MakeContiguous => {
@@ -453,6 +483,8 @@ impl<const N: usize> ZEx<N> {
                     let byr: &mut CircularBuffer<N, Zst> = &mut by;
                     if self.call(false, || byr.clone_from(b)).is_some() {
                         self.len[y] = len;
+                    } else if self.user_faulted {
+                        self.len[y] = byr.len();
                     }
                     self.bufs[y] = Some(by);
                 }
@@ -602,11 +634,13 @@ impl<const N: usize> ZEx<N> {
                 }
             }
         }
+        CLONE_BOMB.with(|c| c.set(0));
         if self.fail.is_none() {
             let (c, d) = (CREATED.with(|c| c.get()), DESTROYED.with(|c| c.get()));
             let live = (self.len[0] + self.len[1] + self.hand.len()) as u64;
             if c != d + self.leaked + live {
                 let own = match st.op {
+                    _ if self.user_faulted => cls::USER_FAULT,
                     Op::FromArray | Op::CloneTo | Op::CloneFrom | Op::IntoIter | Op::ToVec => cls::CTOR,
                     Op::Drain => cls::DRAIN,
                     _ => 0,
@@ -614,7 +648,7 @@ impl<const N: usize> ZEx<N> {
                 self.fail(cls::ZST | cls::LEDGER | own, format!("{c} elements created, {d} destructor runs, but {live} elements are in the buffers or with the caller"));
             }
         }
-        if self.fail.is_none() && !may_alloc && self.allocs > 0 && !self.panicked {
+        if self.fail.is_none() && !may_alloc && self.allocs > 0 && !self.panicked && !self.user_faulted {
             self.fail(cls::ALLOC, format!("{} performed {} heap allocation(s) of its own (ZST, N = {N})", st.op.name(), self.allocs));
         }
         let _ = write!(self.trace.line(), " p={} A={} B={} h={}", self.panicked as u8, self.len[0], self.len[1], self.hand.len());
@@ -686,7 +720,17 @@ pub fn gen_zst_for(seed: u64, run: u64, forget_focus: bool) -> Script {
                 st.a = idx(&mut rng);
                 st.b = idx(&mut rng);
             }
-            Op::ExtendFromSlice | Op::Extend | Op::FromArray => st.vals = vec![0; rng.below(5) as usize],
+            Op::ExtendFromSlice | Op::Extend | Op::FromArray => {
+                st.vals = vec![0; rng.below(5) as usize];
+                if op == Op::ExtendFromSlice && rng.below(3) == 0 {
+                    st.b = 1 + rng.below(4) as usize;
+                }
+            }
+            Op::CloneTo | Op::CloneFrom | Op::ToVec => {
+                if rng.below(3) == 0 {
+                    st.b = 1 + rng.below(l as u64 + 1) as usize;
+                }
+            }
             Op::Drain | Op::Range | Op::RangeMut | Op::Iter | Op::IterMut | Op::IntoIter => {
                 st.rs = crate::gen::range_arg(&mut rng, l, n.min(1 << 20), 15);
                 if op == Op::Drain && (rng.below(4) == 0 || (forget_focus && (t == 0 || rng.below(2) == 0))) {
